@@ -54,13 +54,21 @@ impl Engine for LiveEngine {
         let keys: Vec<Vec<u8>> = (0..n_keys).map(|i| format!("lk{i:03}").into_bytes()).collect();
         let steady = c.chance(1, 4);
         let burst = !steady && c.chance(1, 5);
+        // one client overwrites the same key back to back for more than the bound
+        let hot = !steady && !burst && c.chance(1, 4);
+        let (shards, workers) = if hot { (1, 1) } else { (shards, workers) };
         let sim = SimConfig {
-            strategy: match c.below(3) {
-                0 => Strategy::Random,
-                1 => Strategy::Sticky(*c.pick(&[50u32, 200])),
-                _ => Strategy::Pct(1 + c.below(3)),
+            strategy: if hot && shards == 1 {
+                // the flusher gets far fewer steps than the writer (but is never starved for good)
+                Strategy::Starve(1)
+            } else {
+                match c.below(3) {
+                    0 => Strategy::Random,
+                    1 => Strategy::Sticky(*c.pick(&[50u32, 200])),
+                    _ => Strategy::Pct(1 + c.below(3)),
+                }
             },
-            tick_ns: *c.pick(&[0u64, 50, 200]),
+            tick_ns: if hot { *c.pick(&[100_000u64, 200_000]) } else { *c.pick(&[0u64, 50, 200]) },
             shards,
             workers,
             hash_seed: c.u64(),
@@ -89,14 +97,17 @@ impl Engine for LiveEngine {
             let mut ops = Vec::new();
             let n_ops = if steady {
                 if tier == "thorough" { 600 } else { 200 }
+            } else if hot {
+                if ci == 0 { 9000 } else { 4 }
             } else if burst {
                 1100 + w.below(600) as usize
             } else {
                 3 + w.below(30) as usize
             };
             for _ in 0..n_ops {
-                let key = mine[w.below(mine.len() as u32) as usize];
+                let key = if hot && ci == 0 { mine[0] } else { mine[w.below(mine.len() as u32) as usize] };
                 let op = match w.below(10) {
+                    _ if hot && ci == 0 => Op::Insert { key, val: Val { len: 24, kind: ValKind::Plain }, ts: Ts::Auto, ttl: 0, bytes: false },
                     0 | 1 if !burst => Op::Delete { key, ts: Ts::Auto },
                     2 if store.ttl && !burst => Op::Insert { key, val: Val { len: 40, kind: ValKind::Plain }, ts: Ts::Auto, ttl: 3600, bytes: false },
                     3 if !burst => Op::Incr { key, delta: 1, ts: Ts::Auto, ttl: 0 },
@@ -111,7 +122,7 @@ impl Engine for LiveEngine {
                 ops.push(op);
                 if steady {
                     ops.push(Op::Advance { ns: *w.pick(&[20_000_000u64, 100_000_000, 310_000_000]) });
-                } else if !burst && w.chance(1, 6) {
+                } else if !burst && !(hot && ci == 0) && w.chance(1, 6) {
                     ops.push(Op::Advance { ns: *w.pick(&[1_000_000u64, 40_000_000, 130_000_000]) });
                 }
             }
@@ -120,6 +131,7 @@ impl Engine for LiveEngine {
         let mut knobs = BTreeMap::new();
         knobs.insert("steady".into(), steady as i64);
         knobs.insert("burst".into(), burst as i64);
+        knobs.insert("hot".into(), hot as i64);
         let _ = property;
         Scenario {
             engine: "live".into(),
@@ -166,7 +178,10 @@ impl Engine for LiveEngine {
             }));
         }
         let n_clients = sc.clients.len();
-        let steady = sc.knob("steady", 0) == 1;
+        let steady = sc.knob("steady", 0) == 1 || sc.knob("hot", 0) == 1;
+        if sc.knob("hot", 0) == 1 {
+            report.count("hot_key_runs", 1);
+        }
         let mut periodic_checks = 0u64;
         // while the clients run: every virtual second, whatever is older than the bound must be durable
         loop {
@@ -177,11 +192,16 @@ impl Engine for LiveEngine {
             if steady {
                 let now = sim.now_mono();
                 let log = changes.lock().unwrap().clone();
-                if let Err((rule, detail)) = check_durable_upto(&disk, &log, now.saturating_sub(DURABLE_BOUND_NS), now, sc.store.ttl, sim.now_wall()) {
+                // the slowed-down flusher of the hot-key runs gets three bounds
+                let bound = if sc.knob("hot", 0) == 1 { 3 * DURABLE_BOUND_NS } else { DURABLE_BOUND_NS };
+                if let Err((rule, detail)) = check_durable_upto(&disk, &log, now.saturating_sub(bound), now, sc.store.ttl, sim.now_wall()) {
                     report.fail(&rule, detail);
                     break;
                 }
                 periodic_checks += 1;
+                if std::env::var("SIMCHECK_DEBUG").is_ok() {
+                    eprintln!("periodic check at {} ms: {} changes logged, writes_flushed={} hot={}", (now - sc.sim.epoch_ns) / 1_000_000, log.len(), store.stats().writes_flushed, sc.knob("hot", 0));
+                }
             }
         }
         for h in handles {
